@@ -320,7 +320,7 @@ PROPS["C11"] = dict(
                       "compositions_of_depth_3": 20, "slices_length_not_divisible_by_step": 50,
                       "slices_with_negative_step": 50, "empty_iterables": 50, "checked_Filter": 50, "checked_Map": 50,
                       "checked_enumerate": 20, "repeated_pointer_reproducer_runs": 1, "small_map_grid_points": 150,
-                      "leaves_with_an_edit_history": 100, "map_leaves_with_an_edit_history": 100, "map_leaves_filled_in_descending_order": 100}},
+                      "leaves_with_an_edit_history": 100, "map_leaves_with_an_edit_history": 100, "leaves_with_12_byte_elements": 100, "map_leaves_filled_in_descending_order": 100}},
     rule="case = a generated tree of 3-5 leaf iterables and 3-10 views over them (depth <= 3), every node checked "
          "forwards, backwards, by len and by get; distinct = hash of the node descriptions; non-trivial = contains a "
          "composition of depth >= 2",
@@ -345,7 +345,7 @@ PROPS["C12"] = dict(
                "faults (C20) are not in the table.",
     quick=[("asan", 16, 40), ("plain", 8, 40)],
     thorough=[("asan", 16, 1500), ("plain", 16, 4000), ("memcheck", 8, 3, {"budget": 900})],
-    floors={"quick": {"empty_after_resize_0": 20, "empty_after_draining": 20, "distinct_faults_in_table": 300, "sequence_objects_faulted": 100, "map_objects_faulted": 100,
+    floors={"quick": {"empty_after_resize_0": 20, "iterations_with_a_refused_get_in_the_body": 20, "empty_after_draining": 20, "distinct_faults_in_table": 300, "sequence_objects_faulted": 100, "map_objects_faulted": 100,
                       "string_objects_faulted": 50, "range_objects_faulted": 50, "scalar_objects_faulted": 1}},
     exhaustive=False,
     rule="evaluation = one fault (object kind, operation, invalid argument, size) executed with all oracles; the "
@@ -449,7 +449,7 @@ PROPS["C08"] = dict(
                       "dispatches_to_missing_class": 500, "concurrent_cold_start_trials": 200,
                       "random_lookup_histories": 50, "oversized_type_attempts": 1, "terminal_reproducer_runs": 1,
                       "near_name_classes_declared": 200, "undeclared_near_name_lookups": 10000,
-                      "fallback_types": 500, "concurrent_warm_method_lookups": 1000000, "fallback_calls_to_empty_member": 3000, "fallback_calls_to_filled_member": 1500}},
+                      "fallback_types": 500, "same_name_type_pairs": 100, "concurrent_warm_method_lookups": 1000000, "fallback_calls_to_empty_member": 3000, "fallback_calls_to_filled_member": 1500}},
     rule="case = a run-time type with a random instance list and all its dispatcher calls, or a random history of "
          "200-600 lookups over all known types (cold or warm), or 10-40 concurrent cold-start trials; the built-in "
          "matrix is enumerated completely by shard 0; distinct = hash of the case description; non-trivial = every "
@@ -478,7 +478,8 @@ PROPS["C13"] = dict(
     timeout={"quick": 900, "thorough": 5400},
     floors={"quick": {"digests_compared_with_solo_run": 100, "mutex_sections": 10000,
                       "mutex_handovers_between_threads": 1000, "trylock_sections_that_had_to_wait": 10,
-                      "join_publish_threads": 100}},
+                      "join_publish_threads": 100, "cloned_thread_trials": 20,
+                      "mutex_phases_started_with_cold_lookups": 20}},
     rule="case = one trial: N threads (2..16) each run a seeded workload alone and then together, then 50-200 "
          "Mutex sections each, then a join-publish round; distinct = hash including the observed lock acquisition "
          "order; non-trivial = the lock changed hands between threads at least once and all digests matched",
